@@ -126,6 +126,14 @@ class World:
         def engine_type_resolver(result, ctx, info, abstract_type):
             return world.types[abstract_type.name]["possibleSeq"][0]
 
+        if "directive @boom" in (render.sdl_exec(self.types, self.roots, hooks=True) if cfg.get("hooks") else self.sdl):
+            @t.Directive("boom", schema_name=sn)
+            class Boom:
+                async def on_argument_execution(self, directive_args, next_directive, parent_node, argument_definition_node, argument_node, value, ctx):
+                    v = await next_directive(parent_node, argument_definition_node, argument_node, value, ctx)
+                    if v == 13 and not isinstance(v, bool):
+                        raise ValueError("boom-argument")        # a plain Python exception, not a library error
+                    return v
         if "type" in trs:
             t.TypeResolver("P", schema_name=sn)(type_type_resolver)
         if cfg.get("hooks"):
